@@ -122,19 +122,22 @@ Definition leave_room (m : mgr) (sid ns : str) (room : pv) : mgr :=
 Fixpoint remove_first (l : list str) (x : str) : list str :=
   match l with [] => [] | y :: r => if str_eqb y x then r else y :: remove_first r x end.
 
-(* basic_disconnect *)
+(* basic_disconnect: the rooms are left only if the namespace table still exists; the callbacks
+   and the to-be-disconnected mark of the client are released in any case *)
+Definition disc_release (m1 : mgr) (sid ns : str) : mgr :=
+  let m2 := mkMgr (rooms m1) (pending m1) (adel str_eqb (callbacks m1) sid) in
+  if is_pending m2 sid ns then
+    let l := match aget str_eqb (pending m2) ns with Some l => remove_first l sid | None => [] end in
+    mkMgr (rooms m2) (match l with [] => adel str_eqb (pending m2) ns | _ => aset str_eqb (pending m2) ns l end)
+          (callbacks m2)
+  else m2.
 Definition mgr_disconnect (m : mgr) (sid ns : str) : mgr :=
   match ns_rooms m ns with
-  | None => m
+  | None => disc_release m sid ns
   | Some rm =>
       let names := map fst (filter (fun rb => match bd_get (snd rb) sid with Some _ => true | None => false end) rm) in
       let m1 := fold_left (fun m r => leave_room m sid ns r) names m in
-      let m2 := mkMgr (rooms m1) (pending m1) (adel str_eqb (callbacks m1) sid) in
-      if is_pending m2 sid ns then
-        let l := match aget str_eqb (pending m2) ns with Some l => remove_first l sid | None => [] end in
-        mkMgr (rooms m2) (match l with [] => adel str_eqb (pending m2) ns | _ => aset str_eqb (pending m2) ns l end)
-              (callbacks m2)
-      else m2
+      disc_release m1 sid ns
   end.
 
 (* basic_enter_room(sid, ns, room) with eio_sid=None *)
